@@ -55,6 +55,42 @@ Section NavProofs.
       eapply Step_trans; [exact St|]. apply IH; [apply St|exact Ok'|]. rewrite Par. eapply Known_le; [apply St|exact Kp].
   Qed.
 
+  Lemma iter_adv_ok b : forall fuel rs it k,
+    Inv rs -> IterOk g it -> Known rs (it_parent it) ->
+    Step g rs (snd (fst (iter_adv b fuel rs it k))) (fst (fst (iter_adv b fuel rs it k))) /\
+    IterOk g (snd (iter_adv b fuel rs it k)) /\ it_parent (snd (iter_adv b fuel rs it k)) = it_parent it.
+  Proof.
+    induction fuel as [|f IH]; intros rs it k I Ok Kp; cbn [iter_adv].
+    - cbn. split; [apply Step_refl; [exact I|discriminate]|]. auto.
+    - assert (X : Step g rs (snd (fst (if b then node_iter_next rs it else elem_iter_next rs it)))
+                          (fst (fst (if b then node_iter_next rs it else elem_iter_next rs it))) /\
+                  IterOk g (snd (if b then node_iter_next rs it else elem_iter_next rs it)) /\
+                  it_parent (snd (if b then node_iter_next rs it else elem_iter_next rs it)) = it_parent it).
+      { destruct b.
+        - destruct (node_iter_next_ok g rs it I Ok Kp). split; [assumption|]. split; [assumption|apply iter_parent_node].
+        - destruct (elem_iter_next_ok g rs it I Ok Kp). split; [assumption|]. split; [assumption|apply iter_parent_elem]. }
+      destruct X as (St & Ok' & Par).
+      destruct (if b then node_iter_next rs it else elem_iter_next rs it) as [[r rs'] it']. cbn [fst snd] in *.
+      destruct r as [q|]; [|cbn [fst snd]; auto].
+      destruct k as [|k']; [cbn [fst snd]; auto|].
+      assert (Kp' : Known rs' (it_parent it')) by (rewrite Par; eapply Known_le; [apply St|exact Kp]).
+      destruct (IH rs' it' k' (st_inv _ _ _ _ St) Ok' Kp') as (St2 & Ok2 & Par2).
+      split; [eapply Step_trans; [exact St|exact St2]|]. split; [exact Ok2|]. rewrite Par2. exact Par.
+  Qed.
+
+  Lemma iter_script_ok b fuel : forall script rs it,
+    Inv rs -> IterOk g it -> Known rs (it_parent it) ->
+    Inv (snd (iter_script b fuel rs it script)) /\ Le rs (snd (iter_script b fuel rs it script)).
+  Proof.
+    induction script as [|k sc IH]; intros rs it I Ok Kp; cbn [iter_script].
+    - cbn. split; [exact I|apply Le_refl].
+    - destruct (iter_adv_ok b fuel rs it k I Ok Kp) as (St & Ok' & Par).
+      destruct (iter_adv b fuel rs it k) as [[r rs'] it']. cbn [fst snd] in *.
+      assert (Kp' : Known rs' (it_parent it')) by (rewrite Par; eapply Known_le; [apply St|exact Kp]).
+      destruct (IH rs' it' (st_inv _ _ _ _ St) Ok' Kp') as (A & B).
+      destruct r as [q|]; cbn [fst snd]; (split; [exact A|eapply Le_trans; [apply St|exact B]]).
+  Qed.
+
   Theorem nav_exec_ok regs rs op :
     Inv rs -> RegsOk rs regs -> Res3 rs (nav_exec regs rs op).
   Proof.
@@ -135,6 +171,10 @@ Section NavProofs.
       + destruct (elem_iter_collect_ok g (S (length (kids g p))) rs (iter_new g rs p) I (iter_new_ok g rs p I K) K) as (A & B & _). auto.
     - exact No.
     - (* NArity *) intros p K Nd. unfold Res3. cbn. split; [exact I|]. split; [apply Le_refl|exact Logic.I].
+    - exact No.
+    - (* NIterScript *) intros p K Nd.
+      destruct (iter_script_ok nodes_only (S (length (kids g p))) script rs (iter_new g rs p) I (iter_new_ok g rs p I K) K) as (A & B).
+      apply lst_ok; assumption.
     - exact No.
   Qed.
 
